@@ -188,6 +188,7 @@ type Profile struct {
 	Huge      bool // draw the huge generator (sheet with hundreds of holes, or the zipper) in 1 of HugeRate (default 8000) cases
 	HugeRate  int
 	MinIDs    int
+	Repeat    bool // 1 case in 10 stores a vertex twice or three times in a row
 	Zoo       bool // 1 case in 6 on a set of gridZoo()
 	TileWidth bool // 1 case in 15 on a set with a tile width that is not a power of two
 }
@@ -200,9 +201,14 @@ func countSet(rec *fw.Recorder, sc *SnapCase) {
 	if cls, ok := zooClass[k]; ok {
 		rec.Count("grid-class:" + cls)
 	}
-	switch sc.Kind {
+	kind := sc.Kind
+	if strings.HasSuffix(kind, "+repeated-point") {
+		rec.Count("input_with_repeated_points")
+		kind = strings.TrimSuffix(kind, "+repeated-point")
+	}
+	switch kind {
 	case "huge", "zipper", "big", "nest", "moat", "lobes":
-		rec.Count("kind:" + sc.Kind)
+		rec.Count("kind:" + kind)
 	}
 	if sc.TMS.Name == "" && sc.TMS.TileWidth&(sc.TMS.TileWidth-1) != 0 {
 		rec.Count("grid-class:tile-width-not-a-power-of-two")
@@ -351,8 +357,60 @@ func genSnapCase(rng *fw.Rng, pr *Profile) (*SnapCase, string) {
 		}
 		poly[i] = fr
 	}
+	if pr.Repeat && rng.Chance(1, 10) {
+		// repeated points: a vertex stored twice (or three times) in a row, by preference an extreme one
+		// (lowest, rightmost, ...: the vertices orientation and containment tests start from), in one or two rings
+		for k := 1 + rng.Intn(2); k > 0; k-- {
+			ri := rng.Intn(len(poly))
+			r := poly[ri]
+			if len(r) == 0 {
+				continue
+			}
+			vi := rng.Intn(len(r))
+			if rng.Chance(2, 3) {
+				ax, sign := rng.Intn(2), float64(1-2*rng.Intn(2))
+				for j := range r {
+					if d := sign * (r[j][ax] - r[vi][ax]); d < 0 || d == 0 && sign*(r[j][1-ax]-r[vi][1-ax]) > 0 {
+						vi = j
+					}
+				}
+			}
+			times := 1 + rng.Intn(2)
+			nr := append([][2]float64{}, r[:vi+1]...)
+			for t := 0; t < times; t++ {
+				nr = append(nr, r[vi])
+			}
+			poly[ri] = append(nr, r[vi+1:]...)
+		}
+		kind += "+repeated-point"
+	}
 	c := &SnapCase{TMS: sc.Spec, IDs: ids, Keep: rng.Bool(), Reverse: rng.Chance(1, 4), IgnoreOutside: rng.Chance(1, 4), Poly: poly, Kind: kind}
 	return c, ""
+}
+
+// dropRepeatedPoints removes vertices equal to their predecessor (cyclically); rings keep at least one vertex.
+func dropRepeatedPoints(rings [][]P) [][]P {
+	out := make([][]P, len(rings))
+	changed := false
+	for i, r := range rings {
+		var nr []P
+		for j, p := range r {
+			if j > 0 && p == r[j-1] {
+				changed = true
+				continue
+			}
+			nr = append(nr, p)
+		}
+		for len(nr) > 1 && nr[len(nr)-1] == nr[0] {
+			nr = nr[:len(nr)-1]
+			changed = true
+		}
+		out[i] = nr
+	}
+	if !changed {
+		return rings
+	}
+	return out
 }
 
 func clamp(v, lo, hi int64) int64 {
@@ -473,8 +531,11 @@ func observeBudget(c *SnapCase, budget func(o *Obs)) (*Obs, error) {
 		}
 	}
 	o.MaxVertices = nv
-	o.Valid = oracle.ValidPolygon(o.Rings)
-	if o.Valid && !robustOrientation(o.Rings) {
+	// a vertex stored twice in a row adds a zero-length edge and nothing else: validity, orientation and routing are
+	// those of the ring without the repetition (what every geometry library calls "repeated points")
+	geomRings := dropRepeatedPoints(o.Rings)
+	o.Valid = oracle.ValidPolygon(geomRings)
+	if o.Valid && !robustOrientation(geomRings) {
 		// valid on the 1e-10 integer grid, but so thin that the float polygon actually passed to the tool may be
 		// degenerate or oriented differently (float -> int truncation moves every vertex by up to eps):
 		// not a polygon the word "valid" can be relied on for
@@ -482,7 +543,7 @@ func observeBudget(c *SnapCase, budget func(o *Obs)) (*Obs, error) {
 		o.NearDegenerate = true
 	}
 	if o.Valid {
-		o.Norm = oracle.Normalise(o.Rings)
+		o.Norm = oracle.Normalise(geomRings)
 	} else {
 		o.Norm = normaliseLikeTool(o.Rings)
 	}
